@@ -36,10 +36,12 @@ class Resp:
 class Server:
     n = 0
 
-    def __init__(self, sd, ego, users=None, settings=None, args=None, env=None, name=None):
+    def __init__(self, sd, ego, users=None, settings=None, args=None, env=None, name=None, home=None, users_conn=None):
         Server.n += 1
         self.dir = os.path.join(sd, name or "srv-%d-%d" % (os.getpid(), Server.n))
-        self.home = os.path.join(self.dir, "home")
+        self.home = home or os.path.join(self.dir, "home")   # several nodes of one cluster share a profile (same token key)
+        self.users_conn = users_conn                          # e.g. "sqlite3://<path>" for the database user store
+        os.makedirs(self.dir, exist_ok=True)
         os.makedirs(self.home, exist_ok=True)
         os.chmod(self.home, 0o700)
         self.ego = ego
@@ -73,11 +75,11 @@ class Server:
             raise vf.NoVerdict("ego config set %s failed: %s %s" % (key, p.stdout, p.stderr))
 
     def start(self, wait=15):
-        if not os.path.exists(self.userfile):
+        if not self.users_conn and not os.path.exists(self.userfile):
             self.write_users()
         for k, v in self.settings.items():
             self.config(k, v)
-        cmd = [self.ego, "server", "run", "-k", "-p", str(self.port), "--users", self.userfile,
+        cmd = [self.ego, "server", "run", "-k", "-p", str(self.port), "--users", self.users_conn or self.userfile,
                "--log-file", self.logfile] + self.args
         self.out = open(os.path.join(self.dir, "stdout.txt"), "a")
         self.proc = subprocess.Popen(cmd, env=self.env, cwd=self.dir, stdout=self.out, stderr=subprocess.STDOUT)
